@@ -1039,7 +1039,11 @@ class DocutilsRenderer(RendererProtocol):
         self.copy_attributes(
             token, ref_node, ("class", "id", "reftitle"), aliases={"title": "reftitle"}
         )
-        ref_node["refname"] = cast(str, token.attrGet("href") or "")
+        # markdown-it percent-encodes the destination, target names are not encoded
+        # (SphinxRenderer.render_link_unknown does the same for ``reftarget``)
+        ref_node["refname"] = self.md.normalizeLinkText(
+            cast(str, token.attrGet("href") or "")
+        )
         self.document.note_refname(ref_node)
         with self.current_node_context(ref_node, append=True):
             self.render_children(token)
